@@ -14,7 +14,9 @@ pub mod c10;
 pub mod c12;
 pub mod c13;
 pub mod c14;
+pub mod c15;
 pub mod c17;
+pub mod c18;
 pub mod c19;
 pub mod c20;
 
@@ -32,7 +34,9 @@ pub fn run(ctx: &Ctx, sh: &mut Shard) {
         "C12" => c12::run(ctx, sh),
         "C13" => c13::run(ctx, sh),
         "C14" => c14::run(ctx, sh),
+        "C15" => c15::run(ctx, sh),
         "C17" => c17::run(ctx, sh),
+        "C18" => c18::run(ctx, sh),
         "C19" => c19::run(ctx, sh),
         "C20" => c20::run(ctx, sh),
         p => {
@@ -55,7 +59,9 @@ pub fn replay(v: &Value, sh: &mut Shard) {
         "C12" => c12::replay(v, sh),
         "C13" => c13::replay(v, sh),
         "C14" => c14::replay(v, sh),
+        "C15" => c15::replay(v, sh),
         "C17" => c17::replay(v, sh),
+        "C18" => c18::replay(v, sh),
         "C19" => c19::replay(v, sh),
         "C20" => c20::replay(v, sh),
         p => {
